@@ -17,6 +17,9 @@ ASSUMPTIONS = [
 ]
 
 
+LATER = z3.Function('ts_later', z3.IntSort(), z3.IntSort())
+
+
 def new_ts(ctx, raw=None):
     if raw is None:
         raw = z3.Int(fresh_name('clock'))
@@ -49,9 +52,10 @@ def ts_method(ctx, interp, ref, o, name, args, kwargs, node):
         i = ctx.choose([mine > oth, mine <= oth], 'laterThan')
         if i == 0:
             return ref
-        r = z3.Int(fresh_name('later'))
-        # raw+1 except when the fractional part wraps; only the order is assumed
-        ctx.assume(z3.And(r > oth, r >= mine, r < 2 ** 64))
+        # the next representable stamp after `other` (raw+1 except when the fractional part
+        # wraps): an uninterpreted function of other.raw of which only the order is assumed
+        r = LATER(oth)
+        ctx.assume(z3.And(r > oth, r < 2 ** 64))
         return new_ts(ctx, r)
     if name == 'timeTime':
         return VOpaque(z3.Const(fresh_name('float'), Obj), 'float')
